@@ -263,8 +263,13 @@ func (hdr *TxHeader) innerHash() [sha256.Size]byte {
 			binary.BigEndian.PutUint16(b[i:], uint16(hdr.NEntries))
 			i += sszSize
 		}
-	case 1:
+	default:
 		{
+			// version 1 layout. A header with a version this code does not know can
+			// only come from outside (a proof sent by a server, an exported
+			// transaction, altered bytes): it is hashed with the most recent layout
+			// instead of panicking. The version is part of the digest, so the result
+			// matches no header this code can produce and verification fails.
 			var mdbs []byte
 
 			if hdr.Metadata != nil {
@@ -279,10 +284,6 @@ func (hdr *TxHeader) innerHash() [sha256.Size]byte {
 
 			binary.BigEndian.PutUint32(b[i:], uint32(hdr.NEntries))
 			i += lszSize
-		}
-	default:
-		{
-			panic(fmt.Errorf("missing tx hash calculation method for version %d", hdr.Version))
 		}
 	}
 
